@@ -105,6 +105,61 @@ type chunkWriter struct {
 
 func (c *chunkWriter) Write(p []byte) (int, error) { c.calls++; return c.Buffer.Write(p) }
 
+// keysNotAscending returns the first pair of adjacent member keys of one object that is not in
+// ascending byte order in the JSON text, or "".
+type keyOrder struct {
+	stack [][]string
+	bad   string
+	enc   func(string) string
+}
+
+func keysValidUTF8(v any) bool {
+	switch t := v.(type) {
+	case []any:
+		for _, e := range t {
+			if !keysValidUTF8(e) {
+				return false
+			}
+		}
+	case map[string]any:
+		for k, e := range t {
+			if !utf8.ValidString(k) || !keysValidUTF8(e) {
+				return false
+			}
+		}
+	}
+	return true
+}
+
+func (k *keyOrder) Null()         {}
+func (k *keyOrder) Bool(bool)     {}
+func (k *keyOrder) Int(int64)     {}
+func (k *keyOrder) Float(float64) {}
+func (k *keyOrder) Number(string) {}
+func (k *keyOrder) String(string) {}
+func (k *keyOrder) ArrayStart()   {}
+func (k *keyOrder) ArrayEnd()     {}
+func (k *keyOrder) ObjectStart()  { k.stack = append(k.stack, nil) }
+func (k *keyOrder) ObjectEnd()    { k.stack = k.stack[:len(k.stack)-1] }
+func (k *keyOrder) Key(key string) {
+	top := &k.stack[len(k.stack)-1]
+	if k.enc != nil {
+		key = k.enc(key)
+	}
+	if n := len(*top); n > 0 && k.bad == "" && !((*top)[n-1] < key) {
+		k.bad = fmt.Sprintf("%q before %q", (*top)[n-1], key)
+	}
+	*top = append(*top, key)
+}
+
+func keysNotAscending(text string, enc func(string) string) string {
+	k := keyOrder{enc: enc}
+	if err := oj.TokenizeString(text, &k); err != nil {
+		return ""
+	}
+	return k.bad
+}
+
 func suiteWrite(tier string, seed uint64, model string) *Report {
 	rep := &Report{Property: "C04", Tier: tier, Seed: seed}
 	r := NewRng(seed)
@@ -135,6 +190,26 @@ func suiteWrite(tier string, seed uint64, model string) *Report {
 					cases = append(cases, cs{t, ind, mask, lim})
 				}
 			}
+		}
+	}
+	// keys whose raw order differs from the order of their quoted / escaped forms
+	oddKeys := map[string]any{"name": int64(1), "name 2": int64(2), "name!": int64(3), "a\"b": int64(4), "a": int64(5), "a\x01": int64(6), "<": int64(7), "\u00e9": int64(8), "a\\": int64(9), "Z": int64(10)}
+	// strings longer than the 4096-byte pieces a streaming writer may cut them into, with multi-byte
+	// characters lying across every multiple of 4096
+	long1 := strings.Repeat("a", 4095) + "\u00e9\u00e9" + strings.Repeat("b", 4093) + "\u20ac\u20ac" + strings.Repeat("c", 4090) + "\U0001F600\U0001F600"
+	long2 := strings.Repeat("\u20ac", 3000)
+	for _, t := range []any{oddKeys, []any{oddKeys, map[string]any{"o": oddKeys}}} {
+		for _, mask := range []int{0, 2, 16, 18} {
+			for _, ind := range []int{0, 2} {
+				for _, lim := range []int{-1, 64} {
+					cases = append(cases, cs{t, ind, mask, lim})
+				}
+			}
+		}
+	}
+	for _, t := range []any{[]any{long1}, map[string]any{"k": long1, long2[:300]: long2}} {
+		for _, mask := range []int{2, 18} {
+			cases = append(cases, cs{t, 0, mask, 1}, cs{t, 2, mask, 64}) // limit >= 0: the pretty grid is skipped for most of these
 		}
 	}
 	for i := 0; i < n; i++ {
@@ -240,6 +315,13 @@ func suiteWrite(tier string, seed uint64, model string) *Report {
 						rep.Add(Disagreement{Case: desc, Where: where, Kind: "impl-vs-spec:write-invalid", Impl: out, Spec: err.Error(), Class: class})
 					} else if got := normNums(Show(v)); got != normNums(expected) {
 						rep.Add(Disagreement{Case: desc, Where: where, Kind: "impl-vs-spec:write-denotes", Impl: got, Spec: expected, Detail: out})
+					} else if bad := keysNotAscending(out, nil); po.Sort && bad != "" && keysValidUTF8(c.tree) {
+						// with Sort the members of every object come in ascending key order
+						class := ""
+						if align && keysNotAscending(out, func(k string) string { return string(ojg.AppendJSONString(nil, k, !po.HTMLUnsafe)) }) == "" {
+							class = "pretty-align-encoded-key-order" // ascending in the written (quoted, escaped) form
+						}
+						rep.Add(Disagreement{Case: desc, Where: where, Kind: "impl-vs-spec:write-key-order", Impl: bad, Spec: "members in ascending key order", Detail: out, Class: class})
 					}
 					var w chunkWriter
 					if err := pretty.WriteJSON(&w, c.tree, arg, align, &po); err != nil || (w.String() != out && (po.Sort || !multiKeyObject(c.tree))) {
